@@ -445,7 +445,13 @@ class C02(core.Prop):
         if st == 'exc':
             kinds = sorted({k['kind'] for ks in case['constraints'].values() for k in ks})
             fams = sorted({c['fam'] for c in case['frame']['cols']})
-            fail('raises', '%s: %s' % (type(v).__name__, str(v)[:200]), 'raises:%s' % type(v).__name__)
+            msg = str(v)
+            cause = ''
+            if 'offset-naive and offset-aware' in msg or 'tz-naive and tz-aware' in msg or 'Cannot compare tz' in msg:
+                cause = ':datetime-tz'
+            elif 'Categorical' in msg or '.str accessor' in msg:
+                cause = ':categorical'
+            fail('raises', '%s: %s' % (type(v).__name__, msg[:200]), 'raises:%s%s' % (type(v).__name__, cause))
             return F
         tot_p = tot_f = 0
         for name, ks in case['constraints'].items():
